@@ -27,7 +27,12 @@ Prog2 == << [k |-> "del", which |-> "clm", v |-> Val("int", NONE, W0, 0), map |-
 RealsText == "{\"q\":1726000000.1234567,\"r\":0.30000000000000004}"
 RealsM == << <<"q", "real", "1726000000.1234567", W0>>, <<"r", "real", "0.30000000000000004", W0>> >>
 Reals(w) == BM("set", w, [t |-> "json", name |-> NONE, val |-> RealsText, replace |-> 1, jcls |-> "obj", jm |-> RealsM, jcanon |-> RealsText])
-Core == { Reals("clm"), BM("set", "hdr", Val("str", "typ", "x", 0)), BM("set", "hdr", Val("str", "alg", "none", 1)),
+\* a member that is itself an object, set and then REPLACED by a whole-object set: the later object stands, it is not
+\* merged into the earlier one
+NestA == "{\"o\":{\"k\":\"old\",\"x\":1}}"
+NestB == "{\"o\":{\"y\":2}}"
+Nest(w, txt, inner, r) == BM("set", w, [t |-> "json", name |-> NONE, val |-> txt, replace |-> r, jcls |-> "obj", jm |-> << <<"o", "obj", inner, W0>> >>, jcanon |-> txt])
+Core == { Reals("clm"), Nest("clm", NestA, "{\"k\":\"old\",\"x\":1}", 0), Nest("clm", NestB, "{\"y\":2}", 1), Nest("hdr", NestA, "{\"k\":\"old\",\"x\":1}", 1), Nest("hdr", NestB, "{\"y\":2}", 1), BM("set", "hdr", Val("str", "typ", "x", 0)), BM("set", "hdr", Val("str", "alg", "none", 1)),
           BM("set", "hdr", Val("int", "typ", WOf(7), 1)), BM("set", "hdr", Val("bool", "alg", 1, 1)),
           BM("set", "clm", Val("int", "iat", WOf(5), 1)), BM("set", "clm", Val("int", "exp", WOf(7), 0)),
           BM("set", "clm", Val("str", "sub", "s", 0)), BM("del", "clm", Val("int", "sub", W0, 0)),
